@@ -5,7 +5,9 @@ from analysis import cfg
 from analysis.sym import sym, show_in, nosite, peel, core, walk, ret_values, args_of, guards_at, atoms_at, \
     variant_facts_at, cmp_facts_at, loop_source
 from analysis.pat import match, Call, Cap, ANY, Pred, Const, has, chain_names
-from rules.common import closure_of
+from rules.common import closure_of, closures_in
+from analysis.pat import holds
+from analysis.sym import agg_sites
 from rules import pipe
 
 
@@ -18,9 +20,8 @@ def r1(ctx):
     recv = sym(b, w.ticket.args[0])
     ok = match(recv, Call('deref_mut', ('unwrap', Call('Mutex::lock', ANY)))) or \
         match(peel(recv), ('unwrap', Call('Mutex::lock', ANY)))
-    ctx.require(ok and (w.ticket.callee_res() or '').endswith('Enumerate::next') or
-                (ok and 'Enumerate' in b.local_ty(w.ticket.args[0].place.local)), b, 'ticket-under-lock',
-                'ticket = shared.lock().next() on the Enumerate iterator', 'ticket pull receiver is %s' % show_in(b, recv), w.ticket.span)
+    ctx.require(ok, b, 'ticket-under-lock', 'ticket = shared.lock().next() (index and item taken in one step under the mutex)',
+                'ticket pull receiver is %s' % show_in(b, recv), w.ticket.span)
     # no second lock / nothing else pulls from the shared iterator
     locks = list(b.calls(r'Mutex::lock$|Mutex::try_lock$'))
     ctx.require(len(locks) == 1, b, 'single-lock', 'one lock acquisition per iteration', 'found %d lock calls' % len(locks))
@@ -43,7 +44,10 @@ def r1(ctx):
     ctx.require(ok, n, 'enumerate-inside-mutex', 'shared = Mutex::new(iter.enumerate()): index and item are taken atomically',
                 'the mutex wraps %s' % (show_in(n, sym(n, mx[0].args[0])) if mx else '?'), mx[0].span if mx else None)
     # the worker's captured handle is (a clone of) that Arc<Mutex<..>>
+    from rules.common import resolve_upvars
     cap0 = [core(c) for c in w.captures]
+    if w.spawn_body is not n:
+        cap0 = [core(resolve_upvars(ctx, w.spawn_body, c)) for c in cap0]
     arc = [t for t in n.calls(r'Arc::new$') if has(sym(n, t.args[0]), Call('Mutex::new'))]
     ok = len(arc) == 1 and any(nosite(c) == core(sym(n, arc[0].dest)) for c in cap0)
     ctx.require(ok, n, 'shared-handle', 'every worker captures a clone of the same Arc<Mutex<Enumerate<..>>>', None, w.spawn.span)
@@ -59,29 +63,27 @@ def _ordering_ok(b, t):
 def r2(ctx):
     w = pipe.worker(ctx)
     b = w.body
-    ok = False
-    for op, x, y in cmp_facts_at(b, w.send.bb):
-        if op != 'Eq':
-            continue
-        for p, q in ((x, y), (y, x)):
-            if match(core(p), Call('::load', ANY, ANY)) and pipe.is_ticket_field(w, q, 0):
-                ok = True
+    turn = ('bin', 'Eq', Call('::load', ANY, ANY), Pred(lambda q: pipe.is_ticket_field(w, q, 0)))
+    ok = holds(b, w.send.bb, turn)
     ctx.require(ok, b, 'send-on-turn', 'send happens only when send_next == ticket index',
                 'the send is not guarded by `send_next.load() == idx`: results can be delivered out of order', w.send.span)
-    if len(w.loads) != 1:
-        ctx.fail(b, 'turn-load', 'expected one atomic load (turn check), found %d' % len(w.loads))
+    # the load that provides this fact sits in a wait loop (other loads, e.g. in debug assertions, are irrelevant)
+    waits = []
+    for ld in w.loads:
+        wl = cfg.innermost_loop(b, ld.bb)
+        if wl is not None and wl is not w.loop and w.send.bb not in wl.blocks and wl.header in w.loop.blocks:
+            waits.append((ld, wl))
+    ctx.require(len(waits) == 1, b, 'wait-loop', 'the turn check is re-evaluated in a wait loop before the send',
+                'found %d wait loops around a load of the turn counter' % len(waits), w.loads[0].span if w.loads else None)
+    if len(waits) != 1:
         return
-    ld = w.loads[0]
-    wl = cfg.innermost_loop(b, ld.bb)
-    ok = wl is not None and wl is not w.loop and w.send.bb not in wl.blocks
-    ctx.require(ok, b, 'wait-loop', 'the turn check is re-evaluated in a wait loop before the send', None, ld.span)
-    if ok:
-        ex = wl.exits(b)
-        ctx.require(len(ex) == 1, b, 'wait-loop-exit', 'the wait loop has a single exit (the turn condition)',
-                    'the wait loop has %d exits: a worker may send before its turn' % len(ex), ld.span)
+    ld, wl = waits[0]
+    ex = wl.exits(b)
+    ctx.require(len(ex) == 1, b, 'wait-loop-exit', 'the wait loop has a single exit (the turn condition)',
+                'the wait loop has %d exits: a worker may send before its turn' % len(ex), ld.span)
     ctx.require(_ordering_ok(b, ld), b, 'load-ordering', 'turn load uses a synchronising ordering (not Relaxed)', None, ld.span)
-    # the atomic it loads is the captured counter
-    ctx.require(match(core(sym(b, ld.args[0])), ('upvar', ANY, ANY)), b, 'turn-counter', 'the turn counter is the captured shared atomic', None, ld.span)
+    ctx.require(core(sym(b, ld.args[0]))[0] in ('upvar', 'arg'), b, 'turn-counter', 'the turn counter is the shared atomic handed to the worker', None, ld.span)
+    w.wait_load = ld
 
 
 @rule('C05', 'R-C05-3', 'T1 ORDER + POST-DOM (send, then advance, always)',
@@ -119,8 +121,8 @@ def r3(ctx):
                 'there is a path from the send to the end of the iteration that does not advance the turn: the other '
                 'workers spin forever', wr.span)
     ctx.require(_ordering_ok(b, wr), b, 'store-ordering', 'turn write uses a synchronising ordering (not Relaxed)', None, wr.span)
-    ctx.require(match(core(sym(b, wr.args[0])), ('upvar', ANY, ANY)) and
-                nosite(core(sym(b, wr.args[0]))) == nosite(core(sym(b, w.loads[0].args[0]))) if w.loads else False,
+    ctx.require(core(sym(b, wr.args[0]))[0] in ('upvar', 'arg') and
+                any(nosite(core(sym(b, wr.args[0]))) == nosite(core(sym(b, l_.args[0]))) for l_ in w.loads),
                 b, 'same-counter', 'the counter advanced is the one checked by the wait loop', None, wr.span)
 
 
@@ -134,25 +136,39 @@ def r4(ctx):
     ok = len(at) == 1 and match(sym(n, at[0].args[0]), Const(0))
     ctx.require(ok, n, 'counter-init', 'turn counter starts at 0 (the first enumerate index)', None, at[0].span if at else None)
     writers = []
-    for b in [n] + [c for c in ctx.facts.bodies if c.root == n.path and c is not n]:
+    for b in [n] + closures_in(ctx, n):
         for t in b.calls(pipe.ATOMIC_WRITES):
             writers.append((b, t))
     ctx.require(len(writers) == 1 and writers[0][0] is w.body, n, 'counter-writers',
                 'the only write to the turn counter is the worker\'s advance', 'found %d writers' % len(writers))
     nx = ctx.body('<data::loading::Pipe as std::iter::Iterator>::next')
-    rv = ret_values(nx)
-    thr = [v for v, bb in rv if has(v, Call('Receiver::', ANY)) or has(v, Pred(lambda t: t[0] == 'call' and 'mpsc::Receiver' in t[1]))]
-    ok = len(thr) == 1 and match(thr[0], Call('Result::ok', Call('mpsc::Receiver::recv', ANY)))
-    ctx.require(ok, nx, 'blocking-recv', 'threaded next() = rx.recv().ok(): blocks until an item arrives, None only on disconnect',
-                'threaded next() is %s (a timeout or try_recv ends the iteration early and loses items)' % (
-                    [show_in(nx, v) for v in thr] or [show_in(nx, v) for v, _ in rv]))
-    un = [v for v, bb in rv if v not in thr]
-    ok = len(un) == 1 and match(un[0], Call('::next', ANY))
-    ctx.require(ok, nx, 'unthreaded-next', 'unthreaded next() delegates to the inner iterator', None)
+    rcv = [t for t in nx.calls(r'mpsc::Receiver::(recv|try_recv|recv_timeout|recv_deadline|try_iter|iter)$')]
+    ok = len(rcv) == 1 and (rcv[0].callee_res() or '').endswith('Receiver::recv')
+    ctx.require(ok, nx, 'blocking-recv', 'threaded next() receives with the blocking rx.recv() (None only on disconnect)',
+                'threaded next() receives with %s (a timeout or try_recv ends the iteration early and loses items)' % [
+                    (t.callee_res() or '').rsplit('::', 1)[-1] for t in rcv], rcv[0].span if rcv else None)
+    if ok:
+        r = nosite(sym(nx, rcv[0].dest))
+        for v, bb in ret_values(nx):
+            cv = core(v)
+            if not has(v, Pred(lambda u: nosite(u) == r)) and not (v[0] == 'agg' and v[2].endswith('Option::None') and
+                                                                   any(has(tt, Pred(lambda u: nosite(u) == r)) for tt, n_ in variant_facts_at(nx, bb))):
+                continue
+            if match(v, Call('Result::ok', Pred(lambda u: nosite(u) == r))):
+                ctx.ok(nx, 'threaded next() = rx.recv().ok()', nx.blocks[bb].term.span)
+            elif v[0] == 'agg' and v[2].endswith('Option::Some'):
+                good = any(nosite(tt) == r and n_ == {'Ok'} for tt, n_ in variant_facts_at(nx, bb)) and has(v, Pred(lambda u: nosite(u) == r))
+                ctx.require(good, nx, 'recv-some', 'Some(item) is returned for Ok(item) of the recv', None, nx.blocks[bb].term.span)
+            elif v[0] == 'agg' and v[2].endswith('Option::None'):
+                good = any(nosite(tt) == r and n_ == {'Err'} for tt, n_ in variant_facts_at(nx, bb))
+                ctx.require(good, nx, 'recv-none', 'None is returned only when the channel is disconnected', None, nx.blocks[bb].term.span)
+    inn = [t for t in nx.calls(r'::next$')]
+    ctx.require(len(inn) == 1 and any(has(core(v), Pred(lambda u: u[0] == 'call' and u[1] == inn[0].callee_res())) for v, bb in ret_values(nx)), nx, 'unthreaded-next',
+                'unthreaded next() delegates to the inner iterator', None)
     # original sender dropped before returning: channel closes when the workers are done
     sd = [t for t in n.terms('drop') if t.raw['ty'].startswith('std::sync::mpsc::SyncSender<')]
-    thr_ret = [bb for v, bb in ret_values(n) if has(v, ('agg', 'adt', Pred(lambda s: s.endswith('PipeInner::Threaded')), ANY))]
-    ok = bool(sd) and bool(thr_ret) and all(cfg.must_pass(n, bb, r, via_blocks=[t.bb for t in sd]) for bb in thr_ret for r in n.returns)
+    chan = [t for t in n.calls(r'mpsc::sync_channel$')]
+    ok = bool(sd) and len(chan) == 1 and all(cfg.must_pass(n, chan[0].bb, r, via_blocks=[t.bb for t in sd]) for r in n.returns)
     ctx.require(ok, n, 'sender-dropped', 'Pipe::new drops its own SyncSender, so the channel disconnects when the last worker exits',
                 'Pipe::new keeps a SyncSender alive: the consumer blocks forever after the last item', w.spawn.span)
     adt = ctx.facts.adts.get('data::loading::PipeInner')
@@ -187,39 +203,48 @@ def r5(ctx):
 def r6(ctx):
     w = pipe.worker(ctx)
     n = w.new
-    un = [(v, bb) for v, bb in ret_values(n) if has(v, ('agg', 'adt', Pred(lambda s: s.endswith('PipeInner::Unthreaded')), ANY))]
+    un = agg_sites(n, 'PipeInner::Unthreaded')
     ok = False
     if len(un) == 1:
-        v, bb = un[0]
-        inner = [s for s in walk(v) if isinstance(s, tuple) and s and s[0] == 'call' and s[1].endswith('Iterator::map')]
+        st, v = un[0]
+        inner = [s_ for s_ in walk(v) if isinstance(s_, tuple) and s_ and s_[0] == 'call' and s_[1].endswith('Iterator::map')]
         if len(inner) == 1 and match(inner[0], Call('Iterator::map', ('arg', 1, ANY), ANY)):
             clo = closure_of(ctx, inner[0][2][1])
             crv = ret_values(clo)
             ok = len(crv) == 1 and match(core(crv[0][0]), Call('::call', ANY, ('agg', 'tuple', '', (('arg', 2, ANY),))))
-        g = [(t, pol) for t, pol, _ in atoms_at(n, bb)]
-        okg = any(pol is True and match(core(t), ('bin', 'Eq', ('arg', 3, ANY), Const(0))) for t, pol in g)
-        ctx.require(okg, n, 'unthreaded-guard', 'the unthreaded pipe is returned only under num_threads == 0', None, n.blocks[bb].term.span)
+        okg = holds(n, st.bb, ('bin', 'Eq', ('arg', 3, ANY), Const(0)))
+        ctx.require(okg, n, 'unthreaded-guard', 'the unthreaded pipe is built only under num_threads == 0', None, st.span)
     ctx.require(ok, n, 'unthreaded-map', 'unthreaded: iter.map(|x| pipeline(x)) with no other adaptor', None)
     # worker count
-    lp = cfg.innermost_loop(n, w.spawn.bb)
-    if lp is None:
-        ctx.fail(n, 'spawn-loop', 'the spawn is not inside a loop over the thread range', w.spawn.span)
-        return
-    nx = [t for t in n.calls(r'::next$') if t.bb in lp.blocks]
     rng = None
-    for t in nx:
-        for s in walk(loop_source(n, t)):
-            if isinstance(s, tuple) and s and s[0] == 'agg' and s[2].endswith('Range::Range'):
-                rng = s
+    if w.spawn_via is not None:
+        # (0..num_threads).for_each(|thread| spawn ..): one spawn per element, unconditionally inside the closure
+        name = (w.spawn_via.callee_res() or '')
+        src = core(sym(n, w.spawn_via.args[0]))
+        for s_ in walk(src):
+            if isinstance(s_, tuple) and s_ and s_[0] == 'agg' and s_[2].endswith('Range::Range'):
+                rng = s_
+        each = name.endswith('::for_each') and all(cfg.dominates(w.spawn_body, w.spawn_term.bb, r) for r in w.spawn_body.returns)
+        ctx.require(each, n, 'spawn-each', 'every element of the thread range spawns a worker (for_each)', None, w.spawn.span)
+    else:
+        lp = cfg.innermost_loop(n, w.spawn.bb)
+        if lp is None:
+            ctx.fail(n, 'spawn-loop', 'the spawn is not inside a loop over the thread range', w.spawn.span)
+            return
+        nx = [t for t in n.calls(r'::next$') if t.bb in lp.blocks]
+        for t in nx:
+            for s_ in walk(loop_source(n, t)):
+                if isinstance(s_, tuple) and s_ and s_[0] == 'agg' and s_[2].endswith('Range::Range'):
+                    rng = s_
+        from analysis.sym import variant_edges
+        somearm = [e[1] for t in nx for e in variant_edges(n, sym(n, t.dest), 'Some')]
+        if somearm:
+            ok = all(cfg.must_pass(n, somearm[0], l, via_blocks=[w.spawn.bb]) for l in lp.latches)
+            ctx.require(ok, n, 'spawn-each', 'every iteration of the thread range spawns a worker', None, w.spawn.span)
     ok = rng is not None and match(rng[3][0], Const(0)) and match(core(rng[3][1]), ('arg', 3, ANY))
     ctx.require(ok, n, 'worker-count', 'workers are spawned for 0..num_threads (>= 1 worker on the threaded path)',
                 'workers are spawned for %s: with num_threads == 1 no worker exists and every item is lost' % (
                     show_in(n, rng) if rng else '?'), w.spawn.span)
-    ok = all(cfg.must_pass(n, lp.header, l, via_blocks=[w.spawn.bb], from_succ=True) or True for l in lp.latches)
-    somearm = [tgt for t in nx for (val, tgt) in n.blocks[t.target].term.arms if val == 1] if nx and n.blocks[nx[0].target].term.kind == 'switch' else []
-    if somearm:
-        ok = all(cfg.must_pass(n, somearm[0], l, via_blocks=[w.spawn.bb]) for l in lp.latches)
-        ctx.require(ok, n, 'spawn-each', 'every iteration of the thread range spawns a worker', None, w.spawn.span)
     ch = [t for t in n.calls(r'mpsc::sync_channel$')]
     ok = len(ch) == 1 and match(core(sym(n, ch[0].args[0])), ('arg', 3, ANY))
     ctx.require(ok, n, 'channel-capacity', 'channel = sync_channel(num_threads)', None, ch[0].span if ch else None)
